@@ -154,15 +154,22 @@ class PipeTable:
         if r0:
             self.I.oblige_with(hyps, 'unify', label, g)
             return True
-        # 2. with the path condition (e.g. 'no filter was passed' on this path)
-        s = z3.Solver()
-        s.set('timeout', 2000)
-        for c in self.I.pc:
-            s.add(c)
-        for h in hs:
-            s.add(h)
-        s.add(z3.Not(g))
-        if s.check() == z3.unsat:
+        # 2. with the path condition (e.g. 'no filter was passed' on this path).  Paths share long prefixes of their path
+        #    conditions: the answer is cached under the identities of the (hash-consed) conjuncts, which the entry keeps alive.
+        pc = list(self.I.pc)
+        key2 = (key, tuple(c.get_id() for c in pc))
+        hit = cache.get(key2)
+        if hit is None:
+            s = z3.Solver()
+            s.set('timeout', 2000)
+            for c in pc:
+                s.add(c)
+            for h in hs:
+                s.add(h)
+            s.add(z3.Not(g))
+            hit = (s.check() == z3.unsat, pc)
+            cache[key2] = hit
+        if hit[0]:
             self.I.oblige_with(hyps, 'unify', label, g)
             return True
         return False
